@@ -103,6 +103,10 @@ pub struct LifeCfg {
     /// BFS depth for this configuration (0 = the tier's default)
     #[serde(default)]
     pub depth: usize,
+    /// composed subjects: field (index + 1) whose handler stays Pending in poll_close before its
+    /// final event (0 = none)
+    #[serde(default)]
+    pub slow_close: u8,
 }
 
 #[derive(Clone, Debug, Default, Serialize)]
@@ -1119,6 +1123,12 @@ where
                         return Err(format!("misrouted-to-handler :: event {n} sent by field {wf} to c{wc} reached the handler of field {f} on connection {cid}"));
                     }
                 }
+                LogEv::FromHandler { f, n, .. } if *n >= 9000 => {
+                    // final event emitted from poll_close: must come back to its own field
+                    if *n != 9000 + *f as u32 {
+                        return Err(format!("misrouted-close-event :: final event {n} of field {} was delivered to field {f}", n - 9000));
+                    }
+                }
                 LogEv::FromHandler { f, cid, n, .. } => {
                     let orig = n.wrapping_sub(1000);
                     let Some(&(_, wf, wc)) = self.notified.iter().find(|x| x.0 == orig) else {
@@ -1132,6 +1142,19 @@ where
             }
         }
         if quiescent {
+            // every closed connection delivered each field's final (poll_close) event exactly once
+            for (i, c) in self.conns.iter().enumerate() {
+                if !c.sw.iter().any(|s| s == "Closed") {
+                    continue;
+                }
+                let cid = self.sys.cids[i];
+                for f in 0..nf {
+                    let k = self.full_log.iter().filter(|e| matches!(e, LogEv::FromHandler { f: x, cid: y, n, .. } if *x == f && *y == cid && *n == 9000 + f as u32)).count();
+                    if k != 1 {
+                        return Err(format!("close-event-count field {f} :: connection c{i} is closed but the final event of field {f}'s handler reached its field {k} times (expected once)"));
+                    }
+                }
+            }
             for (n, f, c) in &self.notified {
                 // closed, or being closed (its muxer was asked to close and keeps that pending)
                 let closed = self.conns[*c].sw.iter().any(|s| s == "Closed") || self.mux_of(*c).map(|m| m.lock().unwrap().close_polled > 0).unwrap_or(false);
@@ -1387,7 +1410,7 @@ where
 }
 
 pub fn base(which: Which) -> LifeCfg {
-    LifeCfg { which, deny: DenyMask::default(), max_conns: 3, local_exec: false, reduced: false, explore_schedule: false, pre_established: 0, variant: 0, depth: 0 }
+    LifeCfg { which, deny: DenyMask::default(), max_conns: 3, local_exec: false, reduced: false, explore_schedule: false, pre_established: 0, variant: 0, depth: 0, slow_close: 0 }
 }
 
 pub fn run_generic<B: Subject>(ctx: &Ctx, which: Which, cfgs: Vec<LifeCfg>, depth: usize, sched: (usize, u32)) -> Outcome
@@ -1555,6 +1578,12 @@ pub fn run_c58(ctx: &Ctx) -> Outcome {
         let mut p0 = base(Which::C58);
         p0.max_conns = 2;
         v.push(p0);
+        for slow in 1..=fields {
+            let mut c = plain.clone();
+            c.slow_close = slow;
+            c.max_conns = 2;
+            v.push(c);
+        }
         for f in 0..fields {
             for slot in 0..4 {
                 for d in [Deny::Always, Deny::Even] {
